@@ -2,14 +2,34 @@
 
 _OVERLAY_GEN = {"internal/zzverif/c02gen/gen.go": "c02/gen.go"}
 
+def _per_stream():
+    """cases and lookups per stream of the run just made (read back from the observation files)"""
+    import json, os
+    import vf
+    out, total = {}, 0
+    for st in ("tree", "repo", "processor", "history"):
+        cases = lookups = 0
+        try:
+            with open(os.path.join(vf.OUT, "C02", "obs_%s.jsonl" % st)) as f:
+                for line in f:
+                    o = json.loads(line)
+                    cases += 1
+                    lookups += len((o.get("in") or {}).get("lookups") or [])
+        except (OSError, ValueError):
+            pass
+        out[st] = {"cases": cases, "lookups": lookups}
+        total += lookups
+    return {"per_stream": out, "lookups": total}
+
+
 P = {
     "id": "C02",
     "claimed": True,
     "coq_targets": ["Properties/C02.vo", "Run/Eval_C02.vo"],
     "theorems_module": "Properties.C02",
     "theorems": ["C02_find_is_most_specific", "C02_find_is_most_specific_with_last_flag", "C02_flag_in_force_is_last_add",
-                 "C02_F2_refuted", "C02_F3_refuted", "C02_tree_refines_machine", "C02_tree_add_refines_machine", "C02_repository_find_rule",
-                 "C02_ties_never_decide", "C02_nonvacuous", "C02_order_independent", "C02_rulesets_order_independent",
+                 "C02_F2_refuted", "C02_F3_refuted", "C02_F3_refuted_on_tree", "C02_tree_refines_machine", "C02_tree_add_refines_machine", "C02_repository_find_rule",
+                 "C02_ties_never_decide", "C02_nonvacuous", "C02_order_independent", "C02_rulesets_order_independent", "C02_rulesets_order_nonvacuous",
                  "C02_answer_is_first_acceptable",
                  "C02_match_decides_matches", "C02_parsed_expressions_wellformed", "C02_wildcards_nonempty",
                  "C02_escapes_are_literals",
@@ -55,14 +75,14 @@ P = {
             "rule); distinct by hash of the input.",
     "anchors": ["internal/x/radixtree/tree.go", "internal/x/radixtree/options.go", "internal/rules/repository_impl.go",
                 "internal/rules/rule_impl.go", "internal/rules/route_matcher.go", "internal/rules/rule_factory_impl.go",
-                "internal/rules/ruleset_processor_impl.go"],
+                "internal/rules/ruleset_processor_impl.go", "docs/content/docs/rules/regular_rule.adoc"],
     "trusted": [
         "the Gallina transcription of tree.go (Radix/Tree.v: addNode, splitCommonPrefix, Add, findNode, Find; C06/TreeDel.v, owned by C06: "
         "delNode, deleteChild, delEdge, Delete) and of the repository (C02/Model.v, C02/HistTree.v) is tied to the Go code by the "
         "correspondence runs only; static-child priorities (order of children) are omitted; Clone is the identity in the model (values are "
         "returned, not mutated); in histories which operations the implementation accepted and the answers of SameAs / EqualTo are data of "
         "the case; a route object is modelled as (rule id, rule-set id, position in its rule's route list), rule ids being unique inside a "
-        "rule set; that the content of the model tree after a history equals the machine-level history model (C02/Model.v hstep) is checked "
+        "rule set (enforced by the rule set processor since fix 5e2c60e); that the content of the model tree after a history equals the machine-level history model (C02/Model.v hstep) is checked "
         "per case (db_equiv), not proved",
         "which Adds / rule sets are accepted is not part of the property: the index content is built from what the implementation accepted; "
         "a failed real Add leaves value-less nodes behind, invisible to lookups",
@@ -73,8 +93,9 @@ P = {
         "every Add carries WithBacktracking (as repository.addRulesTo does)",
     ],
     "level_text": "Proof (kernel-checked, no axioms): for EVERY sequence of Adds and Deletes of valid expressions on the empty index (any "
-                  "expressions, order, flags, values constraint, delete matchers) - hence for every state reached by any history of AddRuleSet / "
-                  "UpdateRuleSet / DeleteRuleSet -, every path and every condition (captures included) the transcribed compressed radix tree of "
+                  "expressions, order, flags, values constraint, delete matchers) - hence for every state the model of the repository reaches by any history of "
+                  "AddRuleSet / UpdateRuleSet / DeleteRuleSet (which operations were accepted and SameAs / EqualTo are data of the history, Clone is "
+                  "the identity) -, every path and every condition (captures included) the transcribed compressed radix tree of "
                   "tree.go (addNode with prefix splitting, delNode / deleteChild with node merging, findNode with static/wildcard/catch-all "
                   "children and backtrack flags) keeps its invariant, holds exactly the entries of the abstract pattern-map machine after the same "
                   "operations, and findNode returns exactly what the declarative specification says on the routes currently stored - scan of the "
@@ -82,11 +103,13 @@ P = {
                   "of the order provably never decide), first acceptable value in insertion order, continue only if the failed expression allows "
                   "backtracking - with the flag in force (unguarded) and, outside open finding C02-F2, with the flag the property states (all rules "
                   "of the failed expression allow it); repository level incl. default rule / no rule, after rule-set loads and after histories; "
-                  "independence of how operations on different expressions are interleaved and of the order of completely accepted rule sets; "
+                  "independence of how operations on different expressions are interleaved and of the order of rule sets that are accepted completely in "
+                  "both orders (such sets touch disjoint expressions); "
                   "wildcards non-empty, escapes literal. The model is tied to radixtree.Tree, rules.repository, NewRuleFactory and "
-                  "NewRuleSetProcessor by four differential streams (~1270 cases / ~19000 lookups per quick run) comparing every returned value / "
+                  "NewRuleSetProcessor by four differential streams (~1270 cases / ~18000 lookups per quick run, per-stream counts in the evidence) comparing every returned value / "
                   "rule id with the tree model (after update/delete histories too), the machine and the specification; histories are judged "
-                  "against a fresh load of the rule sets in force (open finding C02-F3).",
+                  "against a fresh load of the rule sets in force (open finding C02-F3: 'the first one in rule-set order' is false after an update and "
+                  "has no theorem there).",
     "level_note": "Trusted: Coq kernel/vm_compute; the hand transcription of tree.go / repository_impl.go into Gallina (checked differentially "
                   "on every run, not verified; the Delete side is C06's file C06/TreeDel.v, its invariant and refinement proofs are imported from "
                   "C06); the Go drivers and generators (harness/c02) and the rendering into Gallina. The theorems about reachable states assume "
@@ -94,9 +117,12 @@ P = {
                   "delete_of_a_non_expression); the repository-level theorem discharges it (only routes that were added are deleted). Not covered "
                   "by a theorem: that the routes stored after an update are those of a fresh load in rule-set order (false: C02-F3; C06's "
                   "statement), the equality of the model tree's content with the machine-level history model (checked per case), static-child "
-                  "priorities (order only), Clone / copy-on-write (C07). Open findings: C02-F2 (flag of the last Add in force; = C06-F2) and "
-                  "C02-F3 (rule order after an update; = C06-F1), both guarded by input, both with a refutation witness, both observed on every "
-                  "run. C02-F1 was repaired by e897fef; its witness stays in the corpus. URL.Captures / path_params are C03's observables.",
+                  "priorities (order only), Clone / copy-on-write after a rejected operation (covered differentially only, cf. seeded C02-9/-10/-11; C07). Open findings: C02-F2 (flag of the last Add in force; = C06-F2), guarded in the "
+                  "theorems (guard_F2), and C02-F3 (rule order after an update; = C06-F1), guarded in the evaluator only (guard_F3, an "
+                  "over-approximation: any difference between the routes on a matching expression and those of a fresh load): that outside the guard a "
+                  "history answers like a fresh load is not proved here (C06's statement); both with refutation witnesses on the tree as it is "
+                  "(C02_F2_refuted, C02_F3_refuted, C02_F3_refuted_on_tree), both observed on every run. C02-F1 was repaired by e897fef; its witness stays in the corpus and as C02_F1_pinned_refuted (not counted). URL.Captures / path_params are C03's observables.",
+    "extra_coverage": _per_stream,
     "assumptions": ["lookups never mutate the tree; the drivers use one goroutine",
                     "the repository driver builds ruleImpl/routeImpl values directly (in-package); a rename of their fields breaks the driver, not the property"],
 }
